@@ -123,6 +123,15 @@ def coherent(t, m, report):
                     bad = ('iter_pairwise', 'iter_pairwise(%s) vectors of (%s,%s) disagree' % (ax, i1, i2))
             if gp != [(ids[a], ids[b]) for a, b in exp_pairs]:
                 bad = ('iter_pairwise', 'iter_pairwise(%s) pairs %r' % (ax, gp))
+        # two live iterators, advanced in lock-step (a read on one axis must not disturb the other)
+        k = 0
+        for (vo, io, _), (vs, is_, _) in zip(t.iter(axis='observation'), t.iter(axis='sample')):
+            if str(io) != oids[k] or str(is_) != sids[k] or \
+                    not np.array_equal(np.asarray(vo, float), D[k, :]) or \
+                    not np.array_equal(np.asarray(vs, float), D[:, k]):
+                bad = ('iter-interleaved', 'interleaved iteration, step %d: observation %s -> %r, sample %s -> %r; '
+                       'matrix says %r / %r' % (k, io, list(vo), is_, list(vs), list(D[k, :]), list(D[:, k])))
+            k += 1
         for a, o in enumerate(oids):
             for b, s in enumerate(sids):
                 g = t.get_value_by_ids(o, s)
